@@ -5,6 +5,7 @@ import (
 	"go/ast"
 	"go/token"
 	"go/types"
+	"sort"
 	"os"
 	"path/filepath"
 	"strings"
@@ -58,6 +59,7 @@ func checkC10(c *Ctx) {
 	checkEmbeddedOrder(c, "C10.R5.embedded-order", ev, gen)
 	checkLoadedDocument(c, "C10.R5.loaded-document", gen)
 	checkWriteUnconditional(c, "C10.R4.document", gen)
+	checkSpecLocation(c, "C10.R4.spec-location", gen)
 
 	// ---- R6 in-place compaction
 	checkInPlaceCompaction(c, "C10.R6.no-inplace-filter", gen)
@@ -776,5 +778,88 @@ func checkLoadedDocument(c *Ctx, rule string, gen *packages.Package) {
 				}
 			}
 		}
+	}
+}
+
+// checkSpecLocation: relative `$ref`s of the input are resolved against the directory of the
+// path the user gave (FlattenOpts.BasePath = GenOpts.Spec). The path may be made absolute —
+// filepath.Abs is lexical — but not exchanged for another location of the same file (the
+// target of a symbolic link, a copy): sibling documents would be looked for next to that
+// other location, and the flattened document embedded in the server describes their schemas.
+func checkSpecLocation(c *Ctx, rule string, gen *packages.Package) {
+	c.Rule(rule, "GenOpts.Spec is only ever replaced by findSwaggerSpec / filepath.Abs of itself (the location relative $refs are resolved against stays the one the user named)", 1)
+	info := gen.TypesInfo
+	allowed := map[string]bool{"path/filepath.Abs": true, "findSwaggerSpec": true}
+	n := 0
+	for _, fd := range load.AllFuncs(gen) {
+		if fd.Body == nil {
+			continue
+		}
+		fd := fd
+		ast.Inspect(fd.Body, func(m ast.Node) bool {
+			as, ok := m.(*ast.AssignStmt)
+			if !ok {
+				return true
+			}
+			for i, l := range as.Lhs {
+				se, ok := ast.Unparen(l).(*ast.SelectorExpr)
+				if !ok || se.Sel.Name != "Spec" {
+					continue
+				}
+				if sel, ok := info.Selections[se]; !ok || (goan.NamedName(sel.Recv()) != "GenOpts" && goan.NamedName(sel.Recv()) != "GenOptsCommon") {
+					continue
+				}
+				var rhs ast.Expr
+				if len(as.Rhs) == len(as.Lhs) {
+					rhs = as.Rhs[i]
+				} else if len(as.Rhs) == 1 {
+					rhs = as.Rhs[0]
+				}
+				if rhs == nil {
+					continue
+				}
+				n++
+				// callees that produce the value, through local variables
+				var foreign []string
+				seen := map[types.Object]bool{}
+				var walk func(e ast.Expr, depth int)
+				walk = func(e ast.Expr, depth int) {
+					ast.Inspect(e, func(k ast.Node) bool {
+						switch x := k.(type) {
+						case *ast.CallExpr:
+							if fn := goan.Callee(info, x); fn != nil {
+								name := goan.CalleeName(fn)
+								if fn.Pkg() == gen.Types {
+									name = fn.Name()
+								}
+								if !allowed[name] {
+									foreign = append(foreign, name)
+								}
+							}
+						case *ast.Ident:
+							v, _ := info.Uses[x].(*types.Var)
+							if v == nil || v.IsField() || seen[v] || depth > 3 || v.Parent() == gen.Types.Scope() {
+								return true
+							}
+							seen[v] = true
+							for _, a := range goan.AssignmentsTo(info, fd.Body, v) {
+								if a.Rhs != nil && a.Rhs.Pos() < as.Pos() {
+									walk(a.Rhs, depth+1)
+								}
+							}
+						}
+						return true
+					})
+				}
+				walk(rhs, 0)
+				sort.Strings(foreign)
+				c.Check(len(foreign) == 0, rule, "generator."+load.FuncName(fd)+" › store to GenOpts.Spec", c.posOf(gen, as.Pos()), "made of findSwaggerSpec / filepath.Abs of the path given",
+					fmt.Sprintf("GenOpts.Spec is replaced by a value that comes from %v: the spec is then loaded from, and its relative $refs resolved against, another location than the one the user named (for a spec reached through a symbolic link, the directory of the link's target) — the flattened document embedded in the server bundles the sibling files of that other directory", foreign))
+			}
+			return true
+		})
+	}
+	if n == 0 {
+		c.Anchor(rule, "generator › store to GenOpts.Spec", "not found")
 	}
 }
